@@ -166,7 +166,11 @@ Definition tf_used_var (t : transf) : str :=
   let s := tf_source t in
   match strip_prefix [36;36;36]%N s with
   | Some r => r
-  | None => match strip_prefix [36]%N s with Some r => r | None => s end
+  | None =>
+      match strip_prefix [36;36]%N s with            (* `$$VAR` names VAR too (fix: used_vars) *)
+      | Some r => r
+      | None => match strip_prefix [36]%N s with Some r => r | None => s end
+      end
   end.
 
 Definition first_missing (want have : list str) : option str := find (fun x => negb (smem x have)) want.
